@@ -47,8 +47,9 @@ type Options struct {
 	AccountID   string            `json:"accountId"`
 	Port0       bool              `json:"port0"`
 	ExitLagMs   int               `json:"exitLagMs"`
-	FrontEnd bool `json:"frontEnd,omitempty"` // invocations go through cmd/aws-lambda-rie's InvokeHandler (vhfe only)
-	OpWaitMs    int               `json:"opWaitMs"` // bound for a single driver step (default 20 s)
+	ExitLagGens int               `json:"exitLagGens,omitempty"` // the lag applies to the first generations only
+	FrontEnd    bool              `json:"frontEnd,omitempty"`    // invocations go through cmd/aws-lambda-rie's InvokeHandler (vhfe only)
+	OpWaitMs    int               `json:"opWaitMs"`              // bound for a single driver step (default 20 s)
 }
 
 type Stack struct {
@@ -66,26 +67,26 @@ type Stack struct {
 	ctx    context.Context // cancelled at the end of the scenario: aborts calls of parties without a process
 	cancel context.CancelFunc
 
-	mu       sync.Mutex
-	bodies   map[string]string // sha -> label of the first event that carried this body
-	nRestore int
-	feReqIDs map[int][2]string // front-end request ordinal -> request id before / after sandbox.Invoke
-	intAgent map[string]string // internal agent name -> id
-	intGen   map[string]int    // internal agent name -> generation in which the id was issued
-	invMu    sync.Mutex
-	ninv     int
-	lastReq  []string          // request ids seen by the runtime, in order
-	nbody    int
+	mu        sync.Mutex
+	bodies    map[string]string // sha -> label of the first event that carried this body
+	nRestore  int
+	feReqIDs  map[int][2]string // front-end request ordinal -> request id before / after sandbox.Invoke
+	intAgent  map[string]string // internal agent name -> id
+	intGen    map[string]int    // internal agent name -> generation in which the id was issued
+	invMu     sync.Mutex
+	ninv      int
+	lastReq   []string // request ids seen by the runtime, in order
+	nbody     int
 	nfe       int
 	feCallers map[int]int
 }
 
 type bootstrap struct{ cwd string }
 
-func (b *bootstrap) Cmd() ([]string, error)                 { return []string{"/scripted/runtime"}, nil }
+func (b *bootstrap) Cmd() ([]string, error)                   { return []string{"/scripted/runtime"}, nil }
 func (b *bootstrap) Env(e *env.Environment) map[string]string { return e.RuntimeExecEnv() }
-func (b *bootstrap) Cwd() (string, error)                   { return b.cwd, nil }
-func (b *bootstrap) ExtraFiles() []*os.File                 { return nil }
+func (b *bootstrap) Cwd() (string, error)                     { return b.cwd, nil }
+func (b *bootstrap) ExtraFiles() []*os.File                   { return nil }
 func (b *bootstrap) CachedFatalError(err error) (fatalerror.ErrorType, string, bool) {
 	return fatalerror.ErrorType(""), "", false
 }
@@ -142,6 +143,7 @@ func New(opt Options) (*Stack, error) {
 	sup.ExecLatency = time.Duration(opt.ExecLatency) * time.Millisecond
 	sup.FullEnv = opt.FullEnv
 	sup.ExitLag = time.Duration(opt.ExitLagMs) * time.Millisecond
+	sup.ExitLagGens = opt.ExitLagGens
 
 	// The port is chosen by asking the kernel for a free one and releasing it again; another process of a check
 	// running in parallel can take it before the emulator listens (rapid.Start panics on a listen failure).
